@@ -143,6 +143,11 @@ func (h *NtfnsHandler) Start() error {
 				})
 			return err
 		}
+		if blk == nil {
+			logging.CPrint(logging.ERROR, "NtfnsHandler.Start(): block not found",
+				logging.LogFormat{"height": curHeight})
+			return ErrMaybeChainRevoked
+		}
 
 		err = h.processConnectedBlock(blk)
 		if err != nil {
